@@ -405,13 +405,28 @@ Proof.
       apply in_map. exact Hx.
 Qed.
 
+(* an export has no opaque packets: nothing is skipped *)
+Lemma drop_skipped_kgroups : forall kl, drop_skipped false (flat_map kgroups kl) = flat_map kgroups kl.
+Proof.
+  assert (Hu : forall us rest, drop_skipped false rest = rest -> drop_skipped false (map guid us ++ rest) = map guid us ++ rest).
+  { induction us as [|u us IH]; intros rest Hr; [exact Hr|]. cbn [map app]. unfold guid at 1. cbn [drop_skipped]. rewrite (IH rest Hr). reflexivity. }
+  assert (Hs : forall sks rest, drop_skipped false rest = rest -> drop_skipped false (map gsub sks ++ rest) = map gsub sks ++ rest).
+  { induction sks as [|sk sks IH]; intros rest Hr; [exact Hr|]. cbn [map app]. unfold gsub at 1. cbn [drop_skipped]. rewrite (IH rest Hr). reflexivity. }
+  induction kl as [|k kl IH]; [reflexivity|]. cbn [flat_map].
+  change (kgroups k ++ flat_map kgroups kl)
+    with ((PKey true (p_public k) true (p_label k), export_sigs (tops (p_sigs k))) :: (map guid (p_uids k) ++ map gsub (p_subs k)) ++ flat_map kgroups kl).
+  cbn [drop_skipped]. rewrite <- app_assoc. rewrite Hu; [reflexivity|]. apply Hs. exact IH.
+Qed.
+
 (* ---------- C14: import of an export ---------- *)
 Theorem concat_splits : forall kl,
   (forall k, In k kl -> wf_pub k) -> NoDup (map kid kl) ->
   import (flat_map export kl) = Ok (map (fun k => copy (strip_nonexportable k)) kl).
 Proof.
   intros kl Hw Hnd. unfold import, import_with.
-  rewrite (filter_all_true _ _ (exports_not_trust kl)). rewrite groups_exports.
+  rewrite (filter_all_true _ _ (exports_not_trust kl)).
+  assert (Hso : forall n, strip_orphans (S n) (flat_map export kl) = flat_map export kl) by (intros n; destruct kl; reflexivity).
+  rewrite Hso, groups_exports. cbn [snd]. rewrite drop_skipped_kgroups.
   rewrite import_keys_groups; auto.
 Qed.
 
